@@ -1005,3 +1005,71 @@ func ruleC12Clock(cx *Ctx) {
 	})
 	cx.R.Check(okI, rule, "newCache", "clock initialised when deadlines are in use", cx.P.Pos(nc.Pos()), "Init is called on the cache's clock under withTime (an uninitialised source reads 0)")
 }
+
+// ---------------------------------------------------------------------------------------------------------------
+// C10.wrapload: the timing wrapper around every loader dispatch hands the dispatch's error through
+// ---------------------------------------------------------------------------------------------------------------
+
+func ruleC10WrapLoad(cx *Ctx) {
+	const rule = "C10.wrapload"
+	cx.R.Rule(rule, 2, "wrapLoad returns the error of the dispatch it wraps unchanged on every returning path (a constant nil only where that error was tested nil) and panics only with the panic error extracted from it - a failed load returns the loader's error")
+	wl := cx.need(rule, "", "cache", "wrapLoad")
+	if wl == nil {
+		return
+	}
+	fnParam := ssa.Value(bparam(wl, 1))
+	var disp ssa.Value
+	n := 0
+	allInstrs(wl, func(in ssa.Instruction) {
+		if c, ok := in.(*ssa.Call); ok && c.Call.Value == fnParam {
+			disp = c
+			n++
+		}
+	})
+	cx.R.Check(n == 1, rule, "(*cache).wrapLoad", "one dispatch", cx.P.Pos(wl.Pos()), fmt.Sprintf("wrapLoad invokes its function argument at exactly one site (%d)", n))
+	if disp == nil {
+		return
+	}
+	nilOK := func(gs []Guard) bool {
+		for _, g := range gs {
+			if v, isNil, ok := nilCmp(g.Cond); ok && v == disp && isNil == g.Truth {
+				return true
+			}
+		}
+		return false
+	}
+	nr := 0
+	allInstrs(wl, func(in ssa.Instruction) {
+		ret, isR := in.(*ssa.Return)
+		if !isR || len(ret.Results) != 1 {
+			return
+		}
+		nr++
+		ok := true
+		seen := map[ssa.Value]bool{}
+		var chk func(v ssa.Value, gs []Guard)
+		chk = func(v ssa.Value, gs []Guard) {
+			if v == disp {
+				return
+			}
+			if seen[v] {
+				return
+			}
+			seen[v] = true
+			if ph, isPhi := v.(*ssa.Phi); isPhi {
+				for i, e := range ph.Edges {
+					g2 := append(append([]Guard{}, guardsAt(ph.Block().Preds[i])...), guardsOnEdge(ph.Block().Preds[i], ph.Block())...)
+					chk(e, g2)
+				}
+				return
+			}
+			if isNilConst(v) && nilOK(gs) {
+				return
+			}
+			ok = false
+		}
+		chk(ret.Results[0], guardsAt(ret.Block()))
+		cx.R.Check(ok, rule, "(*cache).wrapLoad", fmt.Sprintf("return #%d is the dispatch's error", nr), cx.P.where(ret), "the value returned is the error the wrapped dispatch returned (nil only where it was nil)")
+	})
+	cx.R.Check(nr > 0, rule, "(*cache).wrapLoad", "has a returning path", cx.P.Pos(wl.Pos()), "wrapLoad returns to its caller")
+}
